@@ -205,3 +205,49 @@ def json_py(v,m):
     if t=='String': return bytes(model_value(m,x) for x in deref(v.f[0]).b).decode(errors='replace')
     if t=='Array': return [json_py(x,m) for x in deref(v.f[0]).items]
     if t=='Object': return {'__obj__':[[bytes(model_value(m,x) for x in deref(k).b).decode(errors='replace'),json_py(x,m)] for k,x in deref(v.f[0]).e]}
+
+
+class EntryPoints(Obligation):
+    """the crate's own text entry points (`Json::from_reader`, `Json::from_slice`, `Json::deserialize`) run from MIR (generic
+    bodies, T bound by the harness) on one document, with and without non-whitespace bytes after it: they accept / reject alike"""
+    name='C17.interchange_entry_points'
+    hash_order='fixed'
+    def __init__(self,seed=0,known=(),**kw):
+        self.seed=seed
+        self.bounds={'documents':'a signed link block and a layout block (valid), and each with one member removed (invalid)','after the document':'nothing / non-whitespace bytes (a second document, a stray bracket)',
+                     'entry points':'Json::from_reader, Json::from_slice (text) and Json::deserialize (tree; only without trailing bytes)'}
+        self.witnesses=['accepted_everywhere','rejected_everywhere']; self.seen=set()
+    def setup(self,eng,tier):
+        self.eng=eng
+        self.f_reader=eng.find_method('DataInterchange','Json','from_reader'); self.f_slice=eng.find_method('DataInterchange','Json','from_slice'); self.f_value=eng.find_method('DataInterchange','Json','deserialize')
+    def entry(self,eng):
+        def go(run,args):
+            v,trailing=args
+            run.ghost['tysubst']={'T':'Metablock'}
+            outs=[]
+            for fn,chan in ((self.f_reader,'reader'),(self.f_slice,'borrowed')):
+                r=eng.call_fn(run,fn,[Opaque('JsonDoc',{'v':clone_val(v),'chan':chan,'trailing':trailing})])
+                outs.append(deref(r).vname=='Ok')
+            if not trailing:
+                r=eng.call_fn(run,self.f_value,[Ref(Cell(clone_val(v)))]); outs.append(deref(r).vname=='Ok')
+            return outs
+        return go
+    def mk_args(self,run):
+        from .C14 import ADV_DOCS, py_to_value
+        name=['metablock_link','metablock_layout'][run.pick(2,'doc')]
+        doc=ADV_DOCS[name][1]()
+        if run.pick(2,'broken'): doc={k:x for k,x in doc.items() if k!='signed'}
+        trailing=bool(run.pick(2,'trailing'))
+        return [py_to_value(doc),trailing],{'doc':doc,'trailing':trailing}
+    def check(self,run,out,g):
+        rec={'outcome':'?','viol':None,'wit':[],'sample':None,'obl':1}
+        scn={'kind':'entry_points','doc':g['doc'],'trailing':g['trailing']}
+        if out[0]!='ret':
+            rec['outcome']='panic'; rec['viol']={'kind':'panic','known_key':None,'scenario':scn,'predicted':'panic','what':'an interchange entry point panics: '+str(out[1])[:200]}; return rec
+        outs=out[1]; pred='/'.join('ok' if o else 'err' for o in outs); rec['outcome']=pred
+        if len(set(outs))>1 or (g['trailing'] and any(outs)):
+            rec['viol']={'kind':'entry_points_disagree','known_key':None,'scenario':scn,'predicted':pred,'what':'the same bytes are accepted through one entry point and rejected through another (reader/slice/tree = %s; bytes after the document: %s)'%(pred,g['trailing'])}; return rec
+        w='accepted_everywhere' if outs[0] else 'rejected_everywhere'
+        if w not in self.seen: self.seen.add(w); rec['wit'].append(w)
+        rec['sample']={'scenario':scn,'expect':pred}
+        return rec
